@@ -138,6 +138,25 @@ func NewInvalidEscapeSequenceError[Bytes ~[]byte | ~string](what Bytes) error {
 	return &InvalidTextError{"escape sequence", string(what), "in string"}
 }
 
+// InvalidEscapeSequenceLen returns the length of the prefix of what,
+// the text of an error produced by [NewInvalidEscapeSequenceError],
+// up to and including the first byte that makes the sequence invalid.
+// Unlike len(what), it does not depend on how much of the input that
+// follows the offending byte happened to be available to the parser.
+func InvalidEscapeSequenceLen(what string) int {
+	if len(what) < 2 || what[1] != 'u' {
+		return len(what) // e.g., `\x`
+	}
+	n := 0
+	if len(what) > 6 && escapedUTF16PrefixLen(what[:6], false) == 6 {
+		n = 6 // valid upper surrogate half followed by an invalid lower half
+	}
+	if i := n + escapedUTF16PrefixLen(what[n:min(n+6, len(what))], n > 0); i < len(what) {
+		return i + 1
+	}
+	return len(what)
+}
+
 type InvalidTextError struct {
 	Label string // e.g., "character" | "escape sequence" | "surrogate pair"
 	What  string // raw invalid text
